@@ -979,6 +979,7 @@ class Engine:
                                    path=self.path_id, func=self.top_qual()))
                 return ("vacuous", None)
             outcome = None
+            list_snap = _snapshot_lists(args) if contract.script is None else []
             try:
                 if contract.script is not None:
                     res = contract.script(self, a)
@@ -997,6 +998,10 @@ class Engine:
             if outcome[0] == "return" and contract.script is None:
                 self.oblige("frame.no_store_into_argument_buffers", z3.BoolVal(len(self.frame_writes) == 0), cls="P", tags=("frame",),
                             detail="stores into parameter-reachable buffers on this path: %s" % (self.frame_writes[:3],))
+                if list_snap:
+                    changed = [nm for nm, obj, was in list_snap if len(obj) != len(was) or any(x is not y for x, y in zip(obj, was))]
+                    self.oblige("frame.argument_lists_unchanged", z3.BoolVal(not changed), cls="P", tags=("frame",),
+                                detail="list arguments changed (length or an element rebound) on this path: %s" % (changed[:3],))
             refuted_before = any(o.status != "discharged" and o.path == self.path_id for o in self.obs)
             if outcome[0] == "return":
                 for item in self.spec_eval(lambda: contract.ensures(a, outcome[1])):
@@ -1123,6 +1128,10 @@ class Engine:
         if isinstance(f, ExcClass):
             return f(*pos, **kw)
         if callable(f):
+            if isinstance(kw.get("out"), Arr):
+                # ufunc / reduction writing into a caller-supplied buffer: a store for the frame ledger; the value is not modelled
+                self.on_store(kw["out"])
+                raise Unsupported("out= argument (recorded as a store into the buffer)")
             return f(*pos, **kw)
         raise Unsupported("call of %r" % (f,))
 
@@ -2139,6 +2148,25 @@ def _walk_loops(fnode):
             rec(ch)
     rec(fnode)
     out.sort(key=lambda n: (n.lineno, n.col_offset))
+    return out
+
+
+def _snapshot_lists(args, depth=2):
+    """python lists handed over as (or inside) arguments, with a shallow copy of each: compared after the call (frame clause)"""
+    out = []
+
+    def rec(nm, v, d):
+        if isinstance(v, list):
+            out.append((nm, v, list(v)))
+            if d > 0:
+                for i, x in enumerate(v):
+                    rec("%s[%d]" % (nm, i), x, d - 1)
+        elif isinstance(v, tuple) and d > 0:
+            for i, x in enumerate(v):
+                rec("%s[%d]" % (nm, i), x, d - 1)
+    items = args.items() if isinstance(args, dict) else enumerate(args if isinstance(args, (list, tuple)) else [])
+    for k, v in items:
+        rec(str(k), v, depth)
     return out
 
 
